@@ -42,7 +42,8 @@ class ChebyshevPolynomialGeometry(NewtonRaphsonGeometry):
     def __init__(self, coordinate_system, radius, conic=0.0,
                  tol=1e-10, max_iter=100, coefficients=[], norm_x=1, norm_y=1):
         super().__init__(coordinate_system, radius, conic, tol, max_iter)
-        self.c = np.atleast_2d(coefficients)
+        # own float copy (not a view of the caller's array, not integers)
+        self.c = np.array(np.atleast_2d(coefficients), dtype=float)
         self.norm_x = norm_x
         self.norm_y = norm_y
         self.is_symmetric = False
